@@ -51,6 +51,13 @@ spelling / grace / staff / divs columns before and after them, collapse=True for
 getting such an array (Part methods, the *_from_part functions, the part-list functions, PartGroup and Score with two
 parts that have different signatures); each requested column must hold the reference value of the row's own part.
 
+Space `large-magnitudes`: the small families with a MAGNITUDE dimension - every time multiplied by f in {1, 480, 10080,
+302400} and shifted by off in {0, 2**16+1, 2**24+1, 2**31+1} (quarter duration multiplied by f) - and long regular parts of
+30 .. 2600 measures with changing signatures and clefs. Such timelines are too long to ask every integer position:
+the maps are queried at every position within 3 (long parts: 1) divisions of a time point of the part and at the midpoints
+between neighbouring time points; notes of one division end at every boundary, so the note-array columns are looked at
+one division before every change as well.
+
 Space `onsets-outside-measures`: a note and/or a rest STARTS at every position before the first barline and at or after
 the final barline (so also exactly 1, 2, .. bar lengths from the start of the last / first measure); the metrical columns
 of the note array and of the rest array must agree with the metrical-position map at those onsets too.
@@ -67,7 +74,8 @@ RULE = (
     "a case is one part built by a sequence of Part.add (time/key signatures, clefs, measures, notes, rests) / remove / "
     "set_quarter_duration operations (space inplace-then-query: "
     "also use_musical_beat / use_notated_beat / set_musical_beat_per_ts and attribute assignments on the elements) in 1-4 phases; "
-    "after each phase all compared maps are queried at every integer timeline position in 9 argument forms (space "
+    "after each phase all compared maps are queried at every integer timeline position (space large-magnitudes: at every "
+    "position within 3 / 1 divisions of a time point and the midpoints between time points) in 9 argument forms (space "
     "write-into-result-then-query: and again on the same map object after the caller overwrote each returned array; space "
     "array-option-combinations: and the note / rest array is built through one entry point under every subset of its "
     "boolean options - each array with a requested signature / metrical column counts as one more state); each "
@@ -117,6 +125,11 @@ ASSUMPTIONS = [
     "(distance, length) are accepted there",
     "parts without any measure are outside the quantifier of the measure clauses (measure_map raises IndexError there - see C10-NOTES.md)",
     "clefs with line=None and clefs without staff number are not generated",
+    "large-magnitudes: positions are Python ints / int64 (exact in the float64 tables of the maps up to 2**53); the largest "
+    "generated time point is 2**31 + 1 + 8 * 302400; Part.note_array stores onset_div / duration_div as int32, so parts "
+    "reaching beyond 2**31 - 1 are generated without notes and rests (maps only); on these long timelines only the positions "
+    "near a time point (where the answer of a step function can change) and one position inside every stretch between two "
+    "time points are queried, not every integer",
     "trusted: numpy, scipy.interpolate",
 ]
 CHUNK = 40
@@ -241,19 +254,21 @@ def norm_vector(name, r, n, nst):
 # oracle
 
 
-def expected_fn(name, st, codes):
-    """-> function t -> list of acceptable tuples, or None where the statement fixes nothing."""
+def expected_fn(name, st, codes, ref=None):
+    """-> function t -> list of acceptable tuples, or None where the statement fixes nothing.
+    ref: M.Ref(st) - the same reference with the element tables gathered once (long parts)."""
     if name == "time_signature_map":
-        return lambda t: [tuple(M.ref_ts(st, t))]
+        return (lambda t: [tuple(ref.ts(t))]) if ref else (lambda t: [tuple(M.ref_ts(st, t))])
     if name == "key_signature_map":
-        return lambda t: [tuple(M.ref_ks(st, t))]
+        return (lambda t: [tuple(ref.ks(t))]) if ref else (lambda t: [tuple(M.ref_ks(st, t))])
     if name == "clef_map":
-        return lambda t: [tuple((s, codes[sign], line, oc) for s, sign, line, oc in M.ref_clef(st, t))]
-    meas = M.ref_measures(st)
+        clef = ref.clef if ref else (lambda t: M.ref_clef(st, t))
+        return lambda t: [tuple((s, codes[sign], line, oc) for s, sign, line, oc in clef(t))]
+    meas = ref.meas if ref else M.ref_measures(st)
     single = len(meas) == 1
 
     def f(t):
-        m = M.ref_measure_at(meas, t)
+        m = ref.measure_at(t) if ref else M.ref_measure_at(meas, t)
         if m is None:
             return None
         if name == "measure_map":
@@ -494,7 +509,7 @@ def _map_at_onset(part, t, dtypes):
     return _num(v[0]), cast
 
 
-def check_note_array(res, part, st, maps, ctx, kind="note"):
+def check_note_array(res, part, st, maps, ctx, kind="note", ref=None):
     """The optional columns of Part.note_array (kind="note") / Part.rest_array (kind="rest") against the reference at
     the onset of every row; for rows starting in no measure (the statement fixes no extent there) the three metrical
     columns against what Part.metrical_position_map itself returns for that onset."""
@@ -521,7 +536,7 @@ def check_note_array(res, part, st, maps, ctx, kind="note"):
         res.fail(clause, expected=sorted(onset), observed=[str(i) for i in na["id"]], where=where,
                  detail=ctx + " (rows)")
         return calls
-    meas = M.ref_measures(st) if has_meas else []
+    meas = (ref.meas if ref else M.ref_measures(st)) if has_meas else []
     for row in na:
         o = onset[str(row["id"])]
         t = o[1]
@@ -529,14 +544,14 @@ def check_note_array(res, part, st, maps, ctx, kind="note"):
         alt = None
         note = ""
         if "ks" in want:
-            exp += list(M.ref_ks(st, t))
+            exp += list(ref.ks(t) if ref else M.ref_ks(st, t))
             obs += [int(row[c]) for c in NA_COLS["ks"]]
         if "ts" in want:
-            exp += list(M.ref_ts(st, t))
+            exp += list(ref.ts(t) if ref else M.ref_ts(st, t))
             obs += [int(row[c]) for c in NA_COLS["ts"]]
         cols = sum((NA_COLS[k] for k in want if k != "meas"), [])
         if "meas" in want:
-            m = M.ref_measure_at(meas, t)
+            m = ref.measure_at(t) if ref else M.ref_measure_at(meas, t)
             if m is not None:
                 d, ln = _num(t - m[0]), _num(m[1] - m[0])
                 if len(meas) == 1:
@@ -732,7 +747,13 @@ def eval_case(case):
             st.apply(op)
         res.states += 1
         pts = st.point_times()
-        T = list(range(pts[0], pts[-1] + 1))
+        ref = None
+        if "near" in case:
+            # long timeline: the neighbourhood of every time point instead of every integer position
+            T = M.near_positions(pts, case["near"])
+            ref = M.Ref(st)
+        else:
+            T = list(range(pts[0], pts[-1] + 1))
         nst = st.nstaves()
         ctx = "phase %d" % pi
         if st.inplace:
@@ -744,20 +765,20 @@ def eval_case(case):
             if fam == "meas" and not st.of("meas"):
                 continue
             for name in MAPS[fam]:
-                res.transitions += check_map(res, part, name, T, expected_fn(name, st, codes), nst, ctx)
+                res.transitions += check_map(res, part, name, T, expected_fn(name, st, codes, ref), nst, ctx)
                 if case.get("scribble") and not res.violations:
                     c, w = check_requery(res, part, name, T, expected_fn(name, st, codes), nst, ctx)
                     res.transitions += c
                     written += w
-        res.transitions += check_note_array(res, part, st, maps, ctx)
+        res.transitions += check_note_array(res, part, st, maps, ctx, ref=ref)
         if not res.violations:
-            res.transitions += check_note_array(res, part, st, maps, ctx, kind="rest")
+            res.transitions += check_note_array(res, part, st, maps, ctx, kind="rest", ref=ref)
         ncmp = 0
         if "arrays" in case and not res.violations:
             c, ncmp = check_array_options(res, case, part, st, ctx)
             res.transitions += c
             res.states += max(ncmp - 1, 0)  # every option combination is one evaluation of the columns clause
-        meas = M.ref_measures(st) if "meas" in maps else []
+        meas = (ref.meas if ref else M.ref_measures(st)) if "meas" in maps else []
         pk = bool(meas) and meas[0][0] != meas[0][3]
         out = "ts%d ks%d clefstaves%s/%d meas%d pickup%d phases%d" % (
             min(len(st.of("ts")), 3) if "ts" in case["maps"] else -1,
@@ -774,6 +795,11 @@ def eval_case(case):
         if meas and "fill" in case:
             # how many bar lengths of the last measure the latest onset lies after its start
             out += " fill-%s k%d" % (case["fill"], min((T[-1] - 1 - meas[-1][0]) // (meas[-1][1] - meas[-1][0]), 3))
+        if "mag" in case:
+            out += " x%d+2^%d%s" % (case["mag"][0], case["mag"][1].bit_length() - 1 if case["mag"][1] else 0,
+                                    "" if st.of("note") else " no-notes")
+        if "long" in case:
+            out += " long n%d q%d %s" % tuple(case["long"])
         if "arrays" in case:
             out += " arrays:%s(%s..) combos%d" % (case["arrays"]["entry"], "".join(
                 str(int(v)) for _, v in sorted(case["arrays"]["fixed"].items())), ncmp)
@@ -954,6 +980,49 @@ def spaces(tier, seed):
                "parts; thorough: L=3..5, <=3 measures, + 2/2, L=4 also with quarter duration 2, all four key-signature options "
                "for every part, and the forms note_array_from_part_list([A]) / ([B, A]), Score.note_array([A]), "
                "rest_array_from_part_list([A]) / ([B, A])" + (" (blocks of 125: coprime with the 8 cases of one (part, entry point))" if not thorough else "")))
+    # -- large magnitudes: the small families scaled and shifted, and long regular parts
+    def long_cases():
+        core = list(itertools.chain(M.gen_long((30, 300), (1, 480, 10080)),
+                                    M.gen_long((1100,), (480, 1), variants=None)))
+        seen = set(_key(c) for c in core)
+        wide = [c for c in itertools.chain(M.gen_long((30, 300, 1100), (1, 2, 480, 960, 10080, 302400)),
+                                           M.gen_long((2600,), (480, 1), variants=None)) if _key(c) not in seen]
+        # the most expensive first, so that they do not end the run
+        return core + (sorted(wide, key=lambda c: -c["long"][0]) if thorough else [])
+
+    sp.append(Space(
+        "large-magnitudes",
+        lambda: M.interleave(_blocked(lambda: M.gen_magnitude(), lambda: M.gen_magnitude(wide=True), tier, seed, nb=64)(),
+                             long_cases(), 160),
+        bounds="(a) MAGNITUDE dimension over the small families: every time t of a base part becomes off + f * t and the quarter "
+               "duration q becomes f * q (bars, pickups and signatures keep their meaning), for EVERY pair of f in {1, 480, "
+               "10080, 302400} and off in {0, 2**16+1, 2**24+1, 2**31+1} except (1, 0) - so time points up to 2**31 + 3.6e6, "
+               "bars of up to 1.8e6 divisions. Where the base part has notes, a note of ONE division is added that ends at every "
+               "signature / clef start and every barline (it starts one division before it); beyond int32 (off = 2**31+1) notes "
+               "and rests are left out (a note array cannot hold such onsets) and the other elements frame the timeline; parts "
+               "starting at t>0 only without pickup. Queried (all 9 argument forms, all clauses of the other spaces incl. the "
+               "note-array columns): every position within 3 divisions of a time point of the part (element start, barline, "
+               "note onset / end) and the midpoint between neighbouring time points, inside first..last time point. core base "
+               "parts: <=2 time signatures (3 values) / key signatures (4 values; pairs of 3) on every set of positions of 0..2, "
+               "framed by a note or bare, notes per position; one clef per staff on <=2 staves of 0..2; every tiling of 0..L "
+               "(L=1..4) by <=3 measures with quarter duration 1,2 and 6 signature options (incl. pickups, a change at the last "
+               "barline, a signature starting at the second barline); L=4 with key signature, clef and irregular numbering; L=3,4 "
+               "by <=2 measures with the timeline going on 2 divisions (of the base) after / beginning 1 before the measures; a "
+               "quarter-duration change at a later barline (L=4); thorough: <=3 time signatures of 3 values on 0..3 / 1..3 and <=2 of 4 values "
+               "on 0..4, all 46 single key signatures and pairs of 4 on 0..3 / 1..3, <=2 clefs per staff on 0..3 and 3 staves, "
+               "tilings of L<=8 by <=4 measures with quarter durations 1,2,3 and 8 signature options, L=6 with key signature "
+               "and clef, all 6 ways of going on after the final barline with d in {1,3} for L=2..4 by <=3 measures, quarter "
+               "changes for L<=7" + (" (blocks of 64)" if not thorough else "") + ". "
+               "(b) LONG regular parts of n measures with quarter duration q (spread among the cases of (a)): the time signature "
+               "changes every 7 measures (4/4 3/4 6/8 5/4 2/2 in turn), the key signature every 5 (fifths -7..7 in turn, modes "
+               "major / minor / missing in turn), the clef of staff 1 every 4 (10 values in turn), staff 2 gets its only clef at "
+               "the fourth barline, staff 3 has none; every 11th measure is one division short; a note of one division starts at "
+               "every barline and one division before every barline (staves 1,2,3 in turn); variants: plain / first measure a "
+               "pickup of one quarter numbered 0 with signatures inserted last / every time shifted by 2**16+1. All six maps and "
+               "the note-array columns; queried: every position within 1 division of a time point and the midpoints. Both tiers: n "
+               "in {30, 300} x q in {1, 480, 10080} x 3 variants, n=1100 with q=480 plain and q=1 pickup (timelines up to 1.2e7 "
+               "divisions, 2200 notes); thorough adds n in {30, 300, 1100} x q in {1, 2, 480, 960, 10080, 302400} x 3 variants, "
+               "n=2600 with q=480 plain and q=1 pickup"))
     # -- a caller writes into a returned array and asks again
     sp.append(Space(
         "write-into-result-then-query",
